@@ -87,6 +87,16 @@ EndClauses(e) ==
           ProdCmp(<<s.throughput[2] + 2, cfg.dur>>, <<a.nsucc, 1000000, 1000000>>) >= 0, <<s.throughput, a.nsucc, cfg.dur>>)
   /\ Flag(e, "C06.ContainerP99", IF a.ctimes = <<>> THEN s.p99_latency[1] = "nan"
                                  ELSE s.p99_latency[1] = "num" /\ CloseTo(s.p99_latency[2], P99x100(a.ctimes), 100, cfg.tps), <<s.p99_latency, a.ctimes>>)
+  \* adjusted latency (SimulatorStats.adjusted_latency, printed by `eudoxia run`): class means weighted 10/5/1 by completions, divided by the completion rate
+  /\ LET lq == LatOf(LAMBDA p : a.prio[p] = "Q") li == LatOf(LAMBDA p : a.prio[p] = "I") lb == LatOf(LAMBDA p : a.prio[p] = "B")
+         A == 10 * SumSeq(lq) + 5 * SumSeq(li) + SumSeq(lb)
+         W == 10 * Len(lq) + 5 * Len(li) + Len(lb)
+         compl == Len(lq) + Len(li) + Len(lb)
+     IN Flag(e, "C06.AdjustedLatency",
+             IF compl = 0 THEN s.adjusted[1] = "inf"
+             ELSE s.adjusted[1] = "num" /\ ProdCmp(<<IF s.adjusted[2] >= 2 THEN s.adjusted[2] - 2 ELSE 0, W, compl, cfg.tps>>, <<A, np, 1000000>>) <= 0
+                                        /\ ProdCmp(<<s.adjusted[2] + 2, W, compl, cfg.tps>>, <<A, np, 1000000>>) >= 0,
+             <<s.adjusted, "weighted latency ticks", A, "weighted count", W, "completed", compl, "arrived", np>>)
   /\ (e.uncontended =>
         /\ Bump(RUncont, 1)
         /\ Flag(e, "C06.Uncontended", np = 1 /\ a.done[1] >= 0 /\
